@@ -298,6 +298,10 @@ func (c *Ctx) recProvTable0(name string) recProvRes {
 			out.bad = desc + " panics: " + m.panicked
 			return out
 		}
+		if m.orderBad != "" {
+			out.bad = desc + ": " + m.orderBad
+			return out
+		}
 		if len(outs) == 1 && outs[0].followed && outs[0].isErr {
 			if k.acts != nil {
 				out.cells++
